@@ -46,6 +46,9 @@ type SignerDirect interface {
 
 // getVNormalized returns the original 27/28 parity
 func (s *SignatureData) getVNormalized(chainID int64) (byte, error) {
+	if !s.V.IsInt64() {
+		return 0, fmt.Errorf("invalid V value in signature (chain ID = %d, V = %s)", chainID, s.V)
+	}
 	v := s.V.Int64()
 	var vB byte
 	switch v {
